@@ -5,6 +5,7 @@ import (
 	"fmt"
 	"regexp"
 	"regexp/syntax"
+	"unicode/utf8"
 )
 
 type Matcher struct {
@@ -155,7 +156,16 @@ func regexToPrefix(regex string) []byte {
 		if sub.Op != syntax.OpLiteral || sub.Flags&syntax.FoldCase != 0 {
 			break
 		}
-		prefix = append(prefix, sub.Rune...)
+		// only plain ASCII is taken along: beyond that the bytes a character matches are not
+		// fixed (U+FFFD in a regex also matches any byte that is not valid UTF-8)
+		ascii := 0
+		for ascii < len(sub.Rune) && sub.Rune[ascii] < utf8.RuneSelf {
+			ascii++
+		}
+		prefix = append(prefix, sub.Rune[:ascii]...)
+		if ascii < len(sub.Rune) {
+			break
+		}
 	}
 	return []byte(string(prefix))
 }
